@@ -46,6 +46,15 @@ _REQ = {
     "reject_ok:duplicate-setting": 100,
     "reject_ok:two-colours": 100,
     "reject_ok:invalid-depth": 20,
+    "nearmiss:Nd-other-script": 2000,
+    "nearmiss:No-isdigit": 2000,
+    "nearmiss:No-numeric-only": 2000,
+    "nearmiss:Nl": 1000,
+    "nearmiss:Lo-numeric": 500,
+    "nearmiss:sign": 1000,
+    "nearmiss:blank": 1000,
+    "nearmiss:underscore-dot": 1000,
+    "padded_valid_parts": 500,
     "style_arrangements": 1957,
     "reach:display.common._parse_color_256": 1000,
     "reach:display.common._parse_color_88": 1000,
@@ -69,7 +78,10 @@ RULE = (
     "bijection, as background at depths 88, 256, 2**24 and at half density per side at depths 1 and 16, visited in 16 "
     "stride-16 passes so that an exhausted time budget leaves a uniform sample; complete iff "
     "observed.sweep_shards_complete == 16), fg x bg pairs, "
-    "upper-case / whitespace variants, and malformed strings from a grammar (unknown / misspelt names, out-of-range and "
+    "upper-case / whitespace variants, near misses of every numeric form (each digit of 15 base tokens substituted by / "
+    "preceded by / followed by a character of 8 classes: decimal digits of other scripts, isdigit()-only, "
+    "isnumeric()-only, letter numbers, CJK numerals, signs, blanks, underscore/dot; both sides, every depth; only a "
+    "specification or AttrSpecError is acceptable) and malformed strings from a grammar (unknown / misspelt names, out-of-range and "
     "wrong-length numerals, non-hex digits, duplicated settings, two colours, settings in the background, int()-syntax "
     "oddities, random junk, invalid depths).  distinct = distinct triples (hashed); non-trivial = not "
     "(default, default, no settings).  For the thorough 2**24 sweep only every 16th value is entered into the distinct "
@@ -144,7 +156,8 @@ def classify_color(tok: str):
         if len(rest) == 1:
             return ("lenient", "g#-one-digit")
         return ("junk", "g#-wrong-length-hex")
-    if all((c in LENIENT) or (not c.isascii() and c.isdigit()) for c in rest):
+    # int() tolerates any Unicode blank around digits and reads decimal digits of any script: grey zone, not junk
+    if all((c in LENIENT) or (not c.isascii() and (c.isdigit() or c.isspace())) for c in rest):
         return ("lenient", f"{pre}-int()-syntax")
     return ("junk", f"{pre}-nondigit")
 
@@ -749,13 +762,49 @@ def mutate_name(rng, name: str) -> str:
 
 JUNK_ALPHA = "0123456789abcdefgGhH#xz,+- _\t.%é５"
 
+# Characters that look numeric to some str predicate (isdigit / isdecimal / isnumeric) or that Python's int() tolerates
+# around digits, by class.  A numeric form (hN, gN, g#xx, #rgb, #rrggbb) carrying one of them is a near miss: the only
+# acceptable outcomes are a specification (int() leniency, grey zone) or AttrSpecError.
+NEARMISS_CHARS = {
+    "Nd-other-script": "\u0663\u06f3\u0969\uff13\u0e53\U0001d7d1\U0001d7ef\u1047",  # decimal digits int() reads
+    "No-isdigit": "\u00b2\u00b3\u00b9\u2070\u2074\u2081\u2460\u2474\u2488\u2776\u24ea\u24f5\u2780",  # isdigit() but not decimal
+    "No-numeric-only": "\u00bd\u00bc\u2153\u2469\u2473\u0bf0\u3251\u2189",  # isnumeric() only (fractions, circled 10/20/21)
+    "Nl": "\u2167\u2173\u3007\u3021\u16ee\U00010140",  # letter numbers (roman, hangzhou, runic)
+    "Lo-numeric": "\u4e00\u4e09\u5341",  # CJK numerals
+    "sign": "+-\u2212\uff0b\uff0d\u207a\u207b",
+    "blank": " \t\n\u00a0\u2009\u3000\u200b\ufeff",
+    "underscore-dot": "_.\uff3f,e",
+}
+NEARMISS_BASES = ["h0", "h5", "h12", "h87", "h200", "g0", "g7", "g50", "g100", "g#00", "g#c8", "#000", "#9af", "#000000", "#12ab9f"]
+
+
+def nearmiss_tokens():
+    """every base token with each near-miss character substituted for / inserted before / appended after each digit,
+    plus all-substituted bodies; yields (class, token)"""
+    seen = set()
+    for base in NEARMISS_BASES:
+        k = 2 if base.startswith("g#") else 1
+        pre, body = base[:k], base[k:]
+        for cls, chars in NEARMISS_CHARS.items():
+            for ch in chars:
+                cands = [pre + ch * len(body)] if len(body) <= 3 else []
+                for i in range(len(body) + 1):
+                    cands.append(pre + body[:i] + ch + body[i:])
+                    if i < len(body):
+                        cands.append(pre + body[:i] + ch + body[i + 1 :])
+                for t in cands:
+                    if t not in seen:
+                        seen.add(t)
+                        yield cls, t
+
 
 def random_junk(rng) -> str:
     r = rng.random()
     if r < 0.35:
         pre = rng.choice(["#", "g#", "g", "h", "", "#", "g#"])
         n = rng.choice([0, 1, 2, 3, 3, 4, 5, 6, 6, 7, 8])
-        return pre + "".join(rng.choice("0123456789abcdefABCDEFgz+- _x") for _ in range(n))
+        alpha = "0123456789abcdefABCDEFgz+- _x" if rng.random() < 0.6 else "0123456789af" + "".join(NEARMISS_CHARS.values())
+        return pre + "".join(rng.choice(alpha) for _ in range(n))
     if r < 0.5:
         # 7-character strings with digits in the positions a high-digit picker would look at
         pre = rng.choice(["g#", "h", "#", "g", "x"])
@@ -931,6 +980,33 @@ def run(ctx):
                     evaluate(ctx, "", t if t != "bold" else "", d)
     if ctx.shard == 0:
         ctx.sample({"fg": "g#z0z0z", "bg": "", "depth": 88})
+
+    # ---- 3b. near misses of every numeric form built from digit-like / numeric / sign / blank / underscore characters
+    nm = 0
+    for cls, t in nearmiss_tokens():
+        nm += 1
+        idx += 1
+        if not ctx.mine(idx):
+            continue
+        for d in DEPTHS:
+            evaluate(ctx, t, "", d)
+            evaluate(ctx, "", t, d)
+            ctx.count(f"nearmiss:{cls}", 2)
+        evaluate(ctx, f"bold, {t} ,underline", "", DEPTHS[1 + idx // ctx.nshards % 4])
+    ctx.extra["nearmiss_tokens"] = nm
+    # the valid base tokens as blank-padded foreground parts (documented: 'yellow, underline, bold'), every depth
+    for base in NEARMISS_BASES:
+        for lpad, rpad in ((" ", ""), ("", "  "), ("\t", " "), ("  ", "\t")):
+            idx += 1
+            if not ctx.mine(idx):
+                continue
+            for d in DEPTHS:
+                evaluate(ctx, f"{lpad}{base}{rpad}", "", d)
+                evaluate(ctx, f"bold,{lpad}{base}{rpad},underline", "dark blue" if d >= 16 else "", d)
+                ctx.count("padded_valid_parts", 2)
+    done["near-miss numeric tokens (15 bases x 8 character classes x every position) x {fg,bg} x 5 depths"] = True
+    if ctx.shard == 1 % ctx.nshards:
+        ctx.sample({"fg": "h\u00b2", "bg": "g#\u2460\u2460", "depth": 256})
 
     # ---- 4. #rrggbb: per-component sweeps and interesting-value grid (deterministic), then samples
     ivals = interesting_components()
